@@ -703,7 +703,13 @@ def def_take(ctx):
                             pp = param_path(base)
                             if pp and pp[0] == 1 and pp[1] == (r['deferred'],) and not (set(iter_adaptors(src)) & LOSSY_ADAPTORS):
                                 good_src = True
-            if early:
+            noop_ = {'table': (1, (r['deferred'],))}
+            # (judged on the re-examination routine itself — a function of self alone; where it is inlined into apply / merge the
+            # paths around it belong to DEF-REEXAM)
+            if b.arg_count == 1 and not (rc.must_pass(takes) or must_pass_unless_noop(facts, b, it, takes, noop_)):
+                ctx.fail(inst, b, 'a path through the re-examination skips it altogether (the pending table is not taken on every path, '
+                         'and not only when it is empty)', line=block_line(it, takes[0]))
+            elif early:
                 ctx.fail(inst, b, 'a pending remove can be replayed before the table is emptied', line=block_line(it, early[0]))
             elif not good_src:
                 ctx.fail(inst, b, 'the replay loop does not range over every entry of the taken pending table', line=block_line(it, replays[0]))
